@@ -245,6 +245,13 @@ class BuiltinMixin:
             r = r + self.as_int(v)
         return VI(z3.simplify(r))
 
+    def bi_prod(self, args, kw, node):
+        # math.prod of a concrete-length iterable of integers (start = 1)
+        r = self.as_int(kw['start']) if 'start' in kw else (self.as_int(args[1]) if len(args) > 1 else z3.IntVal(1))
+        for v in self.iter_concrete(args[0]):
+            r = r * self.as_int(v)
+        return VI(z3.simplify(r))
+
     def bi_abs(self, args, kw, node):
         x = self.as_int(args[0])
         return VI(z3.If(x < 0, -x, x))
